@@ -1146,7 +1146,7 @@ func (s *sim) checkTraffic() {
 				_, ob, _, _, _ := oc.snapshot()
 				prior += bytes.Count(ob, []byte("\n"))
 			}
-			if o.resetWithLines {
+			if o.resetWithLines || o.halfServed {
 				mayLose++ // the one line whose own transmission error ended that shell
 			}
 		}
@@ -1263,6 +1263,10 @@ func (s *sim) checkSessions() {
 			}
 			if !allServed {
 				s.probes["session_with_a_request_the_server_never_served"]++
+				// ... and its input stream, which the server did have, learns
+				// that its client has gone only when the next line's
+				// transmission fails: that one line may be lost
+				ss.halfServed = true
 			}
 			for _, c := range []*client{ss.in, ss.out, ss.io} {
 				if c == nil {
